@@ -2,8 +2,9 @@
   C15 — circuits reported equal are equivalent; de-duplication keeps every distinct one.
 
   Property theorems only (lemmas in Proofs/Compare.lean).  Objects: circuits as operation lists on typed registers
-  (Model/Export.lean); `directL` = `compare(method="direct")` on operation lists (the driver checks on every input that
-  it agrees with the model's walk over the simulated DAG and with the implementation); `circuitIsIsomorphic`,
+  (Model/Export.lean); `directL` = `compare(method="direct")` on operation lists — proved equal to the model's walk over
+  the simulated DAG `direct` for well-formed circuits (§4, `direct_walk_is_its_operation_list_form`; the driver also checks
+  it on every input, and compares `direct` with the implementation); `circuitIsIsomorphic`,
   `isoNormalised` = the isomorphism comparison as coded (simulated DAG with ordered parallel edges, `control_target`
   attributes, `node_match`, `edge_match` on the multiset of roles of the parallel edges); `removeRedundantWith`, `storageAddAll` = the filters.
   Reference notions: `wiresEq` (same registers, same executed operations on every quantum register) and `renEq`
@@ -312,14 +313,27 @@ theorem dedup_sound (l : List Circuit) (hl : ∀ c ∈ l, WellFormed c) :
     ∀ x ∈ l, x ∈ removeRedundant2 l ∨ ∃ k ∈ removeRedundant2 l, ∃ π, RenamedBy π (flatC k) (flatC x) :=
   removeRedundant2_sound l (fun c hc => wellFormed_opOK c (hl c hc))
 
-/-- **soundness of `direct` for the model of the code itself** — `direct` is the walk over the two simulated DAGs (build,
-    `unwrap_nodes`, `remove_identity`, then every register of both graphs in lock-step), the function the driver compares
-    with the implementation; `direct_sound` above is about its operation-list form `directL` (tested equal on every
-    input).  With the register-path invariant of the normalised DAG the statement holds for the walk directly: reported
-    equal ⇒ same register counts and the same executed operations on every quantum register -/
+/-- **the model of `direct` is its operation-list form.**  `direct` is the walk over the two simulated DAGs (build,
+    `unwrap_nodes`, `remove_identity`, then every register of both graphs in lock-step) — the function the driver compares
+    with the implementation; §1 is about `directL`.  On well-formed circuits the walk never raises and returns exactly
+    `directL` (register-path invariant of the normalised DAG, its node count, and an induction along the two paths), so
+    the agreement the harness tests on every input is a theorem, and every statement of §1 is a statement about the walk -/
+theorem direct_walk_is_its_operation_list_form (c1 c2 : Circuit) (h1 : WellFormed c1) (h2 : WellFormed c2) :
+    direct c1 c2 = .ok (directL c1 c2) :=
+  direct_eq_directL c1 c2 (wellFormed_opOK c1 h1) (wellFormed_opOK c2 h2)
+
+/-- **soundness of `direct` for the model of the code itself**: reported equal ⇒ same register counts and the same
+    executed operations on every quantum register -/
 theorem direct_sound_on_the_dag (c1 c2 : Circuit) (h1 : WellFormed c1) (h2 : WellFormed c2) (h : direct c1 c2 = .ok true) :
     wiresEq c1 c2 = true :=
   direct_graph_sound c1 c2 (wellFormed_opOK c1 h1) (wellFormed_opOK c2 h2) h
+
+/-- the walk is reflexive and symmetric, and does not raise -/
+theorem direct_reflexive_symmetric_on_the_dag (c1 c2 : Circuit) (h1 : WellFormed c1) (h2 : WellFormed c2) :
+    direct c1 c1 = .ok true ∧ direct c1 c2 = direct c2 c1 := by
+  rw [direct_walk_is_its_operation_list_form c1 c1 h1 h1, direct_walk_is_its_operation_list_form c1 c2 h1 h2,
+    direct_walk_is_its_operation_list_form c2 c1 h2 h1, directL_refl, directL_symm]
+  exact ⟨rfl, rfl⟩
 
 /-- … and therefore **`CircuitStorage` with its default check** (`check_redundant_circuit` = `direct` on copies; an
     exception counts as "different", as in the driver) **never refuses a distinct circuit**, stated for the graph-walk
